@@ -902,3 +902,12 @@ impl FixtureDatabase {
 }
 
 // Undeclared fixtures scanning methods are in undeclared.rs
+
+// Verification hook (off unless built with --cfg pytest_language_server_verif):
+// public wrapper for the workspace scan's no-cleanup analysis path.
+#[cfg(pytest_language_server_verif)]
+impl FixtureDatabase {
+    pub fn verif_analyze_file_fresh(&self, file_path: PathBuf, content: &str) {
+        self.analyze_file_fresh(file_path, content);
+    }
+}
